@@ -8,6 +8,7 @@ import numpy as np
 
 import common
 import datagen
+import oracle
 from datagen import AXES
 
 
@@ -36,11 +37,29 @@ def run_tie(out, seed, ncases, nreq, tag, options=True, mutate=None, keep=None):
             ds = mutate(ds, rng) or ds
         d = datagen.impl_data(ds)
         if isinstance(d, tuple):
+            if d[0] == "exception":
+                out.violation("unhandled-exception:%s" % d[1], "verif.data.Data(...) raised %s" % d[1], {"dataset": ds})
             cases.append({"ds": ds, "impl": d, "reqs": []})
             continue
-        sizes = sizes_of(d)
+        try:
+            sizes = sizes_of(d)
+        except Exception as e:
+            out.violation("unhandled-exception:%s" % type(e).__name__, "get_axis_size raised %r" % e, {"dataset": ds})
+            cases.append({"ds": ds, "impl": ("exception", type(e).__name__), "reqs": []})
+            continue
         reqs = datagen.gen_requests(rng, ds, sizes, nreq)
         res = [datagen.impl_request(ds, r) for r in reqs]     # a fresh Data per request: the pure specification
+        for r, x in zip(reqs, res):
+            if isinstance(x, tuple) and x[0] == "exception":
+                out.violation("unhandled-exception:%s" % x[1], "get_scores%r raised %s" % (r, x[1]), {"dataset": ds, "request": r})
+            elif not isinstance(x, tuple):
+                # the property itself, checked directly on what the implementation delivers:
+                # numbers only, or the single NaN for every field
+                single = all(len(col) == 1 and math.isnan(col[0]) for col in x)
+                if not single and any(math.isnan(v) or math.isinf(v) for col in x for v in col):
+                    out.violation("non-number-delivered", "get_scores%r delivered NaN/inf among numbers: %r" % (r, x), {"dataset": ds, "request": r})
+                if len({len(col) for col in x}) > 1:
+                    out.violation("ragged-columns", "get_scores%r delivered columns of different length" % (r,), {"dataset": ds, "request": r})
         cases.append({"ds": ds, "impl": (datagen.impl_dims(d), res), "reqs": reqs, "sizes": sizes})
     exprs = ["run_case %s %s %s" % (datagen.coq_config(c["ds"]["cfg"]),
                                     datagen.coq_list(datagen.coq_input(i) for i in c["ds"]["inputs"]),
@@ -84,6 +103,14 @@ def run_tie(out, seed, ncases, nreq, tag, options=True, mutate=None, keep=None):
                 stats["nonempty_results"] += 1
             if not compare_cols(a, b):
                 disagreements.append({"dataset": ds, "what": "get_scores", "request": r, "implementation": a, "model": b})
+                # is this a failing input of the property?  ask the independent oracle
+                try:
+                    o = oracle.get_scores(ds, idims, r, AXES)
+                    if compare_cols(o, b) and not compare_cols(o, a):
+                        out.violation("scores-differ-from-specification", "get_scores%r returns %s; the property (independent oracle and the "
+                                      "Coq model agree) requires %s" % (r, str(a)[:300], str(b)[:300]), {"dataset": ds, "request": r})
+                except Exception:
+                    pass
                 break
     stats["disagreements"] = len(disagreements)
     if disagreements:
